@@ -139,7 +139,7 @@ Fixpoint render (value : char -> list char) (cs : list comp) : list char :=
   match cs with
   | [] => []
   | Lit s :: r => s ++ render value r
-  | Flush :: r => render value r
+  | Flush :: _ => []                      (* \c: nothing more is printed for this file *)
   | Dir d w j :: r => pad w j (value d) ++ render value r
   end.
 Definition run_printf (strftime_ok : char -> bool) (value : char -> list char) (fmt : list char) : res (list char) :=
